@@ -157,7 +157,8 @@ CHECKS = {
         technique="explicit-state BFS over operation histories of two real RotationInterval instances on a virtual clock (register / resolve / exchange rotation values / advance time across period and grace boundaries), against an independent HMAC reference; plus an exhaustive grid for the pure functions",
         rule="states = distinct canonical (virtual time, both caches, pending timers, reference bookkeeping); successors by replaying the history on fresh objects + one real call; intervals 1 s, 2 s, 1 h; classes = (operation, expectation, outcome)",
         assumptions=["the clock is read through a virtual clock substituted for package time in pkg/rendezvous (rotation.go, rendezvous.go) by source rewriting at check time",
-                     "the swiper's real-time goroutines are outside this harness; the head-exchange marshaler (message_marshaler.go) is compiled on its own (package clause renamed) against pkg/rendezvous on the virtual clock and driven over all operation histories to depth 5/7 (two instances, register / exchange in both directions / advance / foreign seed)",
+                     "part 'swiper': tinder_swiper.go compiled on its own (package clause renamed) on the virtual clock - clock reads, sleeps, timers and context deadlines (context.WithDeadline / WithTimeout mapped to virtual deadlines by the rewriter) - against the real tinder service with a recording discovery driver; every history to depth 4/5 over {start watching, start announcing, advance 2 / 7 / 12 / 35 s} at a 10 s interval; after every step the live subscription of the watch loop and the live advertisement of the announce loop must be for the point of the period containing now (the virtual clock moves 1 microsecond per reading; goroutine hand-overs are awaited in real time, a failing history is believed only when a second, more patient run fails too)",
+                     "the head-exchange marshaler (message_marshaler.go) is compiled on its own (package clause renamed) against pkg/rendezvous on the virtual clock and driven over all operation histories to depth 5/7 (two instances, register / exchange in both directions / advance / foreign seed)",
                      "grace period required by the oracle: RotationGracePeriod after the previous value's deadline"],
     ),
     "C06": dict(
